@@ -105,6 +105,10 @@ func historyCase(e *emitter, rg *rng, nops int) {
 				cut := 1 + rg.intn(len(f)-1)
 				chunk, pendingTail[ci] = f[:cut], f[cut:]
 				class = "hist/stream-partial"
+			case pendingTail[ci] == nil && c.version == 2 && rg.intn(5) == 0:
+				// a well-framed v2 frame whose metadata block does not parse (a two-byte length prefix claiming more than the block holds)
+				chunk = specEncode(2, specFrame{typ: 1 + rg.intn(3), cmd: rg.intn(256), rid: uint32(rg.next()), md: []byte{0x83, 0x00, 'a', 'b', 'c'}, body: rg.bytes(rg.intn(9))})
+				class = "hist/stream-bad-metadata"
 			case pendingTail[ci] == nil && rg.intn(5) == 0:
 				// a well-framed, gzip-flagged frame whose compressed body is corrupt: the decode fails AFTER the whole frame was consumed
 				f, g := genValidFrame(rg, c.version, true)
@@ -156,7 +160,13 @@ func historyCase(e *emitter, rg *rng, nops int) {
 		case 2, 3, 4: // one-shot decode on this connection's context: valid, mutated or truncated frame
 			f, _ := genValidFrame(rg, c.version, true)
 			class := "hist/oneshot-valid"
-			switch rg.intn(4) {
+			switch rg.intn(6) {
+			case 4: // a message that is not a frame at all: text whose first byte has type nibble 0
+				f = append([]byte{byte(0x10 + 0x10*rg.intn(15))}, []byte(" not a frame")...)
+				class = "hist/oneshot-text"
+			case 5: // type nibble 0 with flags set, a plausible rest
+				f[0] = f[0] & 0xf0
+				class = "hist/oneshot-type0"
 			case 0:
 				f = f[:rg.intn(len(f))]
 				class = "hist/oneshot-truncated"
@@ -190,7 +200,7 @@ func historyCase(e *emitter, rg *rng, nops int) {
 				e.fail(idx, fmt.Sprintf("unpackBytes_pure:v%d", c.version), "one-shot decode on a used context differs from the decode in isolation: "+res[:min(200, len(res))]+" vs "+iso[:min(200, len(iso))])
 			}
 		default: // pack on this connection's context
-			p := &pkt{version: c.version, typ: []string{"request", "response", "push"}[rg.intn(3)], cmd: uint32(rg.intn(256)), rid: uint32(rg.next()), to: uint16(rg.next()), st: uint8(rg.next()),
+			p := &pkt{version: c.version, typ: []string{"request", "response", "push", "request", "response", "push", "other"}[rg.intn(7)], cmd: uint32(rg.intn(256)), rid: uint32(rg.next()), to: uint16(rg.next()), st: uint8(rg.next()),
 				verify: rg.intn(3) == 0, body: genBody(rg, rg.pick([]int{0, 1, 5, 40}))}
 			if p.verify {
 				p.nonce, p.sig = rg.next(), rg.bytes(16)
@@ -309,6 +319,21 @@ func genC11(e *emitter, tier string, seed uint64) map[string]interface{} {
 				// a pack in between recycles pooled headers with other content
 				pk := &protocol.Packet{Metadata: &protocol.Metadata{Type: protocol.ResponsePacket, RequestId: uint32(i), StatusCode: uint8(g), CmdCode: 7}, Body: bytes.Repeat([]byte{byte(i)}, i%9)}
 				proto(v).Pack(ctxs[v], pk)
+				// … and a compressed one, whose result is checked: each goroutine's frame decodes to its own body
+				if i%3 == 0 {
+					body := bytes.Repeat([]byte{byte(g), byte(i), 'q'}, 400+g*13)
+					pz := &protocol.Packet{Metadata: &protocol.Metadata{Type: protocol.PushPacket, CmdCode: 9}, Body: append([]byte{}, body...)}
+					fz, err := proto(v).Pack(newCtx(v, protocol.CodecProtobuf), pz, protocol.GzipSize(64))
+					var qz *protocol.Packet
+					if err == nil {
+						qz, err = proto(v).UnpackBytes(newCtx(v, protocol.CodecProtobuf), fz)
+					}
+					if err != nil || qz == nil || !bytes.Equal(qz.Body, body) {
+						mu.Lock()
+						bad = fmt.Sprintf("goroutine %d op %d: a compressed frame packed while other goroutines use the codec does not decode to its own body (err=%v)", g, i, err)
+						mu.Unlock()
+					}
+				}
 			}
 		}(g)
 	}
